@@ -393,6 +393,17 @@ def gen_C06(g, tier):
                             lines.append(f"{c} raw remove r {s0} {s0 + ln} p str {hx(long)}")
                 lines.append(f"{c} raw remove rt 0 {per_ // 2 + 1} p str {hx(long)}")
                 lines.append(f"{c} raw remove r 0 3 p str {hx(long)}")
+            # edits on a new / emptied sequence (retained capacity, argument windows at every offset), then clones of the result
+            for lead in (0, 1, 64 // w - 1, 64 // w + 1):
+                arg = offset_slice(g, c, g.text(c, r.choice([1, 3, 64 // w + 1])), lead)
+                for empty in ("p str -", f"clear {base}", f"trunc 0 {base}", f"remove full 0 0 {base}"):
+                    for ed in ("append", "prepend"):
+                        lines.append(f"{c} show {ed} {empty} {arg}")
+                        lines.append(f"{c} show clone {ed} {empty} {arg}")
+                        lines.append(f"{c} raw clone {ed} {empty} {arg}")
+                        lines.append(f"{c} show {ed} {ed} {empty} {arg} {arg}")
+                    lines.append(f"{c} show clone insert 0 {empty} {arg}")
+                    lines.append(f"{c} show push 1 clone append {empty} {arg}")
             # edits after a shrinking edit (stale bits above the live length must not leak)
             for shrink in (f"trunc {max(n - 2, 0)}", f"remove rf {max(n - 3, 0)} 0", f"fromraw {max(n - 1, 0)}", f"remove r 0 {min(2, n)}"):
                 lines.append(f"{c} show push 0 {shrink} {base}")
@@ -444,6 +455,26 @@ def gen_C07(g, tier):
                 for op in ops_s:
                     lines.append(f"{c} show {op} {sl}")
                 lines.append(f"{c} show rev own {sl}")
+        # owned copying forms on values whose buffer was shortened from the front / cloned
+        per_ = max(1, 64 // w)
+        for k in sorted({1, 2, per_ // 2 + 1, per_ - 1}):
+            t = g.text(c, per_ + 6)
+            if k < len(t):
+                for op in ops_v:
+                    lines.append(f"{c} show {op} remove r 0 {k} p str {hx(t)}")
+                    lines.append(f"{c} show {op} clone remove rt 0 {k} p str {hx(t)}")
+                lines.append(f"{c} show torev torev remove r 0 {k} p str {hx(t)}")
+        # content holding alternative codes (only reachable through the generic bit operators): symbols keep their identity
+        if c == "mdna":
+            for _ in range(6 if tier == "quick" else 60):
+                n = r.randrange(1, 2 * per_)
+                a_, b_ = g.text(c, n), g.text(c, n)
+                for bop in ("or", "and"):
+                    v_ = f"{bop} p str {hx(a_)} p str {hx(b_)}"
+                    for op in ops_v:
+                        lines.append(f"{c} show {op} {v_}")
+                    lines.append(f"{c} show stocomp {v_}")
+                    lines.append(f"{c} show storevcomp {v_}")
         # unsupported complement must be refused by both sides
         if not info["has_comp"]:
             lines.append(f"{c} show comp p str {hx(g.text(c, 3))}")
@@ -476,9 +507,13 @@ def gen_C11(g, tier):
             # the std adaptors (nth / skip / step_by / last / count / take) over the crate's iterators
             sl = offset_slice(g, c, t, r.randrange(0, 64 // w + 1))
             for kind in ("windows", "chunks", "iter", "reviter"):
-                for ad in ("nth", "skip", "stepby", "last", "count", "take", "nthnext", "hint", "lastafter", "countafter", "foldafter", "nthhuge"):
+                for ad in ("nth", "skip", "stepby", "last", "count", "take", "nthnext", "hint", "lastafter", "countafter", "foldafter", "nthhuge", "nthcount", "nthlast", "nthhint"):
                     wd = r.randrange(1, max(2, min(n, 5) + 1))
                     arg = r.choice([0, 1, 2, 3, n // 2, n])
+                    if ad.startswith("nth") and ad != "nth":
+                        # also jumps landing exactly at / one / several items past the end
+                        for over in (n, n + 1, n + 3):
+                            lines.append(f"{c} adapt {kind} {wd} {ad} {over} {sl}")
                     lines.append(f"{c} adapt {kind} {wd} {ad} {arg} {sl}")
             lines.append(f"{c} intoiterv p str {hx(t)}")
             lines.append(f"{c} chunksvec 2 p str {hx(t)}")
